@@ -27,6 +27,12 @@ ck.regen()
 mods = ck.props_modules()
 if mods:
     ck.lean(mods)
+    ck.require_theorems([
+        'LbzVerif.Props.C08.Slide.slide_bounds',
+        'LbzVerif.Props.C08.Slide.shift_bound',
+        'LbzVerif.Props.C08.fastpath_refills',
+        'LbzVerif.Props.C08.selectors_enough',
+    ])
 inproc.run_libs(ck, ['w10_mtf', 'w11_prefix', 'w12_emit'])
 exe = ck.build_lbzip2('lbzip2-asan', asan=True, ndebug=False)
 rng = ck.rng
